@@ -3,7 +3,10 @@
 correspondence : `coarse_grid_solver(spec)` objects of pyamg/multilevel.py driven through whole call
                  histories vs the Lean model `C16.coarseGridSolver` (Model/C16Coarse.lean: dispatch chain,
                  lazily cached factorisation, splu zero-row/column compression, nnz == 0 shortcut, reshape,
-                 relaxation from the zero guess) on Rat / Gaussian rationals.  Values are compared with a
+                 relaxation from the zero guess) on Rat / Gaussian rationals; every relaxation name except schwarz
+                 vs `C16R.relaxCallR` (Model/ExtC16Relax.lean, op ext_c16_relax) run on the inputs recorded from the
+                 real setup (spectral-radius estimate, inverted diagonal blocks, Chebyshev coefficients, block
+                 storage).  Values are compared with a
                  condition-scaled tolerance (LAPACK / SuperLU round), shapes, raised-or-not and the number
                  of factorisation calls exactly.
 search         : the real objects judged by exact oracles that do not use that model: the exact
@@ -28,6 +31,17 @@ SCIPY_KRYLOV = ['bicg', 'cgs', 'qmr', 'minres']          # not in pyamg.krylov: 
 RELAX = ['gauss_seidel', 'jacobi', 'block_gauss_seidel', 'schwarz', 'block_jacobi', 'richardson', 'sor',
          'chebyshev', 'jacobi_ne', 'gauss_seidel_ne', 'gauss_seidel_nr']
 NE_NR = ['jacobi_ne', 'gauss_seidel_ne', 'gauss_seidel_nr']
+# extension E29: relaxation setups with an exact model (Model/ExtC16Relax.lean, op ext_c16_relax) and the keyword
+# arguments that model interprets (degree / bounds of chebyshev only enter through the recorded coefficients)
+XOPTS = {'jacobi': {'iterations', 'omega', 'withrho'}, 'block_jacobi': {'iterations', 'omega', 'withrho'},
+         'block_gauss_seidel': {'iterations', 'sweep'}, 'richardson': {'iterations', 'omega'},
+         'chebyshev': {'iterations', 'degree', 'lower_bound', 'upper_bound'},
+         'jacobi_ne': {'iterations', 'omega', 'withrho'}, 'gauss_seidel_ne': {'iterations', 'sweep', 'omega'},
+         'gauss_seidel_nr': {'iterations', 'sweep', 'omega'}, 'gauss_seidel': {'iterations', 'sweep'},
+         'sor': {'iterations', 'sweep', 'omega'}}
+# which recorded spectral-radius estimate a setup divides by (block_jacobi: by block size)
+XRHO = {'jacobi': 'rho_D_inv_A', 'jacobi_ne': 'rho_D_inv_A', 'richardson': 'approximate_spectral_radius',
+        'chebyshev': 'approximate_spectral_radius'}
 BAD_NAMES = ['LU', 'Pinv', 'foo', 'cgnr', 'cr', 'fgmres', 'pinv3', 'spsolve', 'gauss-seidel', 'none', 'None', 'jacobi_',
              'cf_jacobi', 'steepest_descent', 'PINV', 'splu2', 'cholesky_', 'gauss_seidel_indexed']
 
@@ -45,15 +59,26 @@ META = {
     'search_only': [
         'accuracy "to rounding" of LAPACK (gesdd/getrf/potrf) and SuperLU: the model represents them by their exact '
         'contracts; the real outputs are compared with the exact rational oracle within 1e-10 * cond(A) (relative)',
-        'relaxation names other than gauss_seidel / sor / jacobi(withrho=False) (block_*, schwarz, richardson, chebyshev, '
-        'jacobi with the spectral-radius estimate): zero guess observed at the smoother entry + exact energy functional of '
-        'the real output only (no Lean model of their setup)',
-        'gauss_seidel_ne / gauss_seidel_nr: 2-norm of the error / residual does not increase (exact evaluation of the real '
-        'output); jacobi_ne: shape, zero guess, zero result for b = 0 only',
+        'relaxation names (extension E29): schwarz has no Lean model (zero guess observed at the smoother entry + exact energy '
+        'functional of the real output only); block_jacobi / block_gauss_seidel on block storage (bs >= 2) and chebyshev are '
+        'modelled exactly (C16R.relaxSolveR on the recorded block inverses / Chebyshev coefficients, compared with the real '
+        'output) but their energy non-increase is judged on the real output only (no energy theorem for them)',
+        'the recorded inputs of C16R.Rec themselves: the accuracy of the spectral-radius estimates (Arnoldi from a random start '
+        'vector), of get_block_diag(inv_flag=True) and of chebyshev_polynomial_coefficients is not modelled; the interval / degree '
+        'handed to chebyshev_polynomial_coefficients is compared with rho * bounds of the options',
+        'complex matrices with the relaxation names of E29: the exact model is run over Gaussian rationals and compared with the '
+        'real output; the energy / 2-norm theorems are proved over ordered fields (real scalars) only',
         'Krylov names: shape of b, zero on empty matrices, residual reduced to 1e-6 on small SPD matrices',
     ],
     'partial': [],
     'assumptions': [
+        'relax_jacobi_energy / relax_richardson_energy / relax_jacobi_ne_error: the damping bound omega_eff * lambda_max <= 2 for '
+        'the damping actually used (omega / recorded rho); evaluated in floating point per instance for jacobi / block_jacobi on '
+        'point storage / richardson (feature thm-hyp:damping-bound-holds|fails); the exact energy functional of the real '
+        'output is judged on every Hermitian positive definite instance regardless',
+        'relax_gs_ne_error / relax_gs_nr_residual_csr: canonical CSR rows (indices in range, no duplicates: what m.csr() '
+        'produces), 0 <= omega <= 2, real scalars; the setup-side format conversions (tocsr of BSR input, tocsc) are SciPy '
+        'routines: the model computes the CSC arrays itself (C16R.cscOf, proved to be the same operator)',
         'complex matrices: the certificates isPinv / isInv / isHPD (conj = CRat.conj, isPos = posC) are evaluated by the '
         'driver over Gaussian rationals per instance; what they mean over C is proved (isPinv_sound_complex, '
         'isInv_sound_complex, isHPD_sound_complex; clauses pinv_call_min_norm_complex, direct_call_solves_complex, '
@@ -437,6 +462,12 @@ def modelled(spec):
     return arg not in RELAX and arg not in KRYLOV      # unknown names: dispatch only
 
 
+def modelled_x(spec):
+    """does the extended relaxation model (C16R.relaxSolveR) interpret every option of this spec?"""
+    arg, opts = spec['arg'], spec.get('opts') or {}
+    return isinstance(arg, str) and arg in XOPTS and set(opts) <= XOPTS[arg]
+
+
 def gen_specs(rng, mat, quick=True):
     """the specs tried on one matrix"""
     specs = []
@@ -483,6 +514,36 @@ def gen_specs(rng, mat, quick=True):
         idx = rng.choice(len(pool), size=min(kk, len(pool)), replace=False)
         specs += [pool[int(i)] for i in idx]
     return specs
+
+
+def gen_specs_x(rng, mat, quick=True):
+    """extension E29: option grids of the relaxation setups modelled by C16R.relaxSolveR, drawn from a generator of their own
+    (the stream of the other cases is left as it was)"""
+    pool = [
+        # damping chosen so that the energy clause applies on every SPD matrix with n <= 8: omega * lambda_max(D^-1 A) <= 2
+        {'arg': 'jacobi', 'opts': {'omega': float(rng.choice([0.5, 1.0, 1.5])), 'iterations': int(rng.integers(1, 4))}},
+        {'arg': 'jacobi', 'opts': {'withrho': True, 'omega': float(rng.choice([0.75, 1.25]))}},
+        {'arg': 'block_jacobi', 'opts': {'omega': float(rng.choice([0.5, 1.0, 1.5])), 'iterations': int(rng.integers(1, 4))}},
+        {'arg': 'block_jacobi', 'opts': {'withrho': False, 'omega': float(rng.choice([0.125, 0.25]))}},
+        {'arg': 'block_jacobi', 'opts': {'withrho': True, 'iterations': int(rng.integers(1, 3))}},
+        {'arg': 'block_gauss_seidel', 'opts': {'sweep': str(rng.choice(['backward', 'forward', 'symmetric'])), 'iterations': int(rng.integers(1, 4))}},
+        {'arg': 'block_gauss_seidel', 'opts': {'sweep': 'backward'}},
+        {'arg': 'richardson', 'opts': {'omega': float(rng.choice([0.5, 1.5])), 'iterations': int(rng.integers(1, 4))}},
+        {'arg': 'richardson', 'opts': {'omega': 1.0}},
+        {'arg': 'chebyshev', 'opts': {'degree': int(rng.integers(1, 5)), 'iterations': int(rng.integers(1, 4))}},
+        {'arg': 'chebyshev', 'opts': {'lower_bound': float(rng.choice([0.0625, 0.125])), 'upper_bound': float(rng.choice([1.125, 1.25]))}},
+        {'arg': 'jacobi_ne', 'opts': {'omega': float(rng.choice([0.5, 1.0])), 'iterations': int(rng.integers(1, 4))}},
+        {'arg': 'jacobi_ne', 'opts': {'withrho': False, 'omega': float(rng.choice([0.125, 0.25])), 'iterations': int(rng.integers(1, 4))}},
+        {'arg': 'gauss_seidel_ne', 'opts': {'omega': float(rng.choice([0.5, 1.5])), 'sweep': str(rng.choice(['backward', 'forward', 'symmetric']))}},
+        {'arg': 'gauss_seidel_ne', 'opts': {'sweep': 'backward', 'iterations': int(rng.integers(1, 4))}},
+        {'arg': 'gauss_seidel_nr', 'opts': {'omega': float(rng.choice([0.5, 1.5])), 'sweep': str(rng.choice(['backward', 'forward', 'symmetric']))}},
+        {'arg': 'gauss_seidel_nr', 'opts': {'sweep': 'symmetric', 'iterations': int(rng.integers(1, 4))}},
+    ]
+    M = mat.M
+    is_hpd = bool(mat.n > 0 and np.array_equal(M, M.conj().T) and np.linalg.eigvalsh(M).min() > 1e-9)
+    kk = (3 if quick else 4) if is_hpd else 1
+    idx = rng.choice(len(pool), size=min(kk, len(pool)), replace=False)
+    return [pool[int(i)] for i in idx]
 
 
 def gen_history(rng, mat, spec):
@@ -633,6 +694,39 @@ class GuessSpy:
         return False
 
 
+class RecSpy:
+    """records what the setup functions of pyamg.relaxation.smoothing obtain from routines outside the Lean model
+    (spectral-radius estimates, inverted diagonal blocks, Chebyshev coefficients): the recorded inputs of C16R.Rec"""
+    NAMES = ['rho_D_inv_A', 'rho_block_D_inv_A', 'approximate_spectral_radius', 'get_block_diag',
+             'chebyshev_polynomial_coefficients']
+
+    def __enter__(self):
+        from pyamg.relaxation import smoothing
+        self.mod, self.saved, self.last = smoothing, {}, {}
+
+        def mk(nm, orig):
+            def f(*a, **k):
+                r = orig(*a, **k)
+                self.last[nm] = {'value': np.array(r, copy=True), 'args': [v for v in a if np.isscalar(v)], 'kwargs': {kk: vv for kk, vv in k.items() if np.isscalar(vv)}}
+                return r
+            return f
+        for nm in self.NAMES:
+            orig = getattr(smoothing, nm, None)
+            if orig is not None:
+                self.saved[nm] = orig
+                setattr(smoothing, nm, mk(nm, orig))
+        return self
+
+    def take(self):
+        d, self.last = self.last, {}
+        return d
+
+    def __exit__(self, *exc):
+        for nm, orig in self.saved.items():
+            setattr(self.mod, nm, orig)
+        return False
+
+
 def run_impl(mats, spec, calls, seed):
     """-> dict(ctor_error, results=[{'x','shape','exc'}], nfact, guesses)"""
     out = {'ctor_error': None, 'results': [], 'nfact': None, 'guesses': []}
@@ -644,7 +738,7 @@ def run_impl(mats, spec, calls, seed):
     As = [m.sparse() for m in mats]
     name = spec['arg'] if isinstance(spec['arg'], str) else None
     import warnings
-    with FactorCounter() as fc, GuessSpy(name if name in RELAX else '__none__') as spy, warnings.catch_warnings(), \
+    with FactorCounter() as fc, GuessSpy(name if name in RELAX else '__none__') as spy, RecSpy() as rs, warnings.catch_warnings(), \
             np.errstate(all='ignore'):
         warnings.simplefilter('ignore')
         warnings.showwarning = lambda *a, **k: None      # pyamg.krylov re-enables its own warnings ('always')
@@ -654,11 +748,24 @@ def run_impl(mats, spec, calls, seed):
                 b = b.reshape(-1, 1)
             np.random.seed(seed)
             arg_b = b.tolist() if c.get('aslist') else b
+            rs.take()
             try:
                 x = solver(As[c['k']], arg_b)
-                out['results'].append({'x': np.asarray(x), 'exc': None, 'bshape': b.shape})
+                out['results'].append({'x': np.asarray(x), 'exc': None, 'bshape': b.shape, 'rec': rs.take()})
             except Exception as e:
-                out['results'].append({'x': None, 'exc': f'{type(e).__name__}: {e}', 'bshape': b.shape})
+                out['results'].append({'x': None, 'exc': f'{type(e).__name__}: {e}', 'bshape': b.shape, 'rec': rs.take()})
+            if name in XOPTS and out['results'][-1]['exc'] is None and b.dtype == As[c['k']].dtype and b.size:
+                # stability probe for the comparison with the exact relaxation model: the same object on a slightly perturbed
+                # right-hand side (same cached spectral-radius estimate) measures how much the iteration amplifies a perturbation
+                nb = float(np.linalg.norm(b)) or 1.0
+                d = np.random.RandomState(20260930).standard_normal(b.size).reshape(b.shape)
+                d = (d / np.linalg.norm(d) * 1e-9 * nb).astype(b.dtype)
+                try:
+                    x2 = np.asarray(solver(As[c['k']], b + d))
+                    out['results'][-1]['amp'] = float(np.linalg.norm(x2.ravel() - out['results'][-1]['x'].ravel()) / (1e-9 * nb))
+                except Exception:
+                    pass
+                rs.take()
         out['nfact'] = fc.count
         out['fact_kwargs'] = fc.kwargs
         out['guesses'] = spy.seen
@@ -760,12 +867,18 @@ def judge_batch(ctx, items, seed=0):
         pending.append(res)
         for (ci, line) in res.get('quad', []):
             quad_lines.append(line)
-            quad_index.append((it, ci))
+            quad_index.append((it, ci, 'quad'))
+        for (ci, line) in res.get('xrelax', []):
+            quad_lines.append(line)
+            quad_index.append((it, ci, 'xrelax'))
     if quad_lines:
         qr = lean(ctx, quad_lines)
-        for (it, ci), r in zip(quad_index, qr):
+        for (it, ci, what), r in zip(quad_index, qr):
             mats, spec, calls = items[it]
-            _judge_energy(ctx, mats, spec, calls, ci, pending[it], r)
+            if what == 'quad':
+                _judge_energy(ctx, mats, spec, calls, ci, pending[it], r)
+            else:
+                _judge_xrelax(ctx, mats, spec, calls, ci, pending[it], r)
 
 
 def _exact_matvec(X, b):
@@ -846,7 +959,7 @@ def _judge_one(ctx, mats, spec, calls, inf, seed):
 
     model, mcount = _parse_run(inf['run'])
     impl = run_impl(mats, spec, calls, seed)
-    out = {'impl': impl, 'quad': [], 'facts': facts, 'case': case, 'hpd': hpd}
+    out = {'impl': impl, 'quad': [], 'xrelax': [], 'facts': facts, 'case': case, 'hpd': hpd}
 
     # ---- constructor
     if model == 'ValueError':
@@ -882,6 +995,9 @@ def _judge_one(ctx, mats, spec, calls, inf, seed):
                 # rejection, not a wrong answer; what is judged for mixed dtypes is every value that IS returned
                 ctx.feat('mixed-dtype-rejected:' + str(name))
                 continue
+        # ---------- correspondence with the extended relaxation model (second Lean batch: it needs the recorded inputs)
+        if name in XOPTS and modelled_x(spec) and not mixed and fk['nnz'] > 0:
+            out['xrelax'].append((ci, xrelax_line(Ak, spec, c, r.get('rec') or {})))
         # ---------- correspondence with the model
         if undefined and multi:
             pass
@@ -1029,7 +1145,7 @@ def _judge_call(ctx, out, ci, Ak, fk, spec, c, r, X, inv_ok, hpd, viol):
         if exc is not None:
             raised_is_violation()
             return
-        rt = 1e-5 if x.dtype in (np.float32, np.complex64) else 1e-12
+        rt = 1e-5 if (x.dtype in (np.float32, np.complex64) or np.asarray(b).dtype in (np.float32, np.complex64)) else 1e-12
         if not np.allclose(x.ravel(), want, rtol=rt, atol=1e-13, equal_nan=True):
             viol(f'{tag}: returned {x.ravel()[:6]}, the callable (with its keyword arguments) gives {want[:6]}')
         return
@@ -1065,6 +1181,124 @@ def _judge_call(ctx, out, ci, Ak, fk, spec, c, r, X, inv_ok, hpd, viol):
         out['quad'].append((ci, f'c16_quad {f} {enc_csr(Ak.csr(), qc)} {enc_vec(b, qc)} {enc_vec(x, qc)}'))
         out.setdefault('xs', {})[ci] = (_exact_matvec(X, b) if X is not None else None, x, tag)
         return
+
+
+def _xrelax_bs(S):
+    return int(S.blocksize[0]) if S.format == 'bsr' else 1
+
+
+def xrelax_line(Ak, spec, c, rec):
+    """one call of a relaxation-based coarse solver for the model C16R.relaxCallR: options, recorded inputs, b, CSR and BSR arrays"""
+    name = spec['arg']
+    cplx = bool(Ak.cplx or np.iscomplexobj(c['b']))
+    f = 'c' if cplx else 'r'
+    S = Ak.sparse()
+    bs = _xrelax_bs(S)
+    _, o, _ = lean_tokens(spec)
+    rho_key = XRHO.get(name)
+    if name == 'block_jacobi':
+        rho_key = 'rho_block_D_inv_A' if bs > 1 else 'rho_D_inv_A'
+    rho = '-'
+    if rho_key and rho_key in rec:
+        rho = enc_vec([complex(rec[rho_key]['value']) if cplx else float(rec[rho_key]['value'])], cplx)
+    dinv = enc_vec(rec['get_block_diag']['value'].ravel(), cplx) if 'get_block_diag' in rec else '-'
+    cheb = enc_vec(rec['chebyshev_polynomial_coefficients']['value'], cplx) if 'chebyshev_polynomial_coefficients' in rec else '-'
+    if bs > 1:
+        bsr = f'{S.shape[0] // bs} {enc_ints(S.indptr)} {enc_ints(S.indices)} {enc_vec(S.data.ravel(), cplx)}'
+    else:
+        bsr = '0 - - -'
+    return (f'ext_c16_relax {f} {name} {o} {rho} {bs} {dinv} {cheb} {c["shape"]} {enc_vec(c["b"], cplx)} '
+            f'{enc_csr(Ak.csr(), cplx)} {bsr}')
+
+
+def _judge_xrelax(ctx, mats, spec, calls, ci, res, reply):
+    """correspondence of one real call with C16R.relaxCallR (exact model run on the recorded inputs)"""
+    name = spec['arg']
+    r = res['impl']['results'][ci]
+    case = res['case']
+    Ak = mats[calls[ci]['k']]
+    n = Ak.n
+    rec = r.get('rec') or {}
+    ctx.feat('xrelax:' + name)
+    if reply.startswith('err:'):
+        why = reply[4:]
+        ctx.feat('xrelax-model-err:' + why)
+        if r['exc'] is None and np.all(np.isfinite(r['x'])):
+            ctx.corr(f'relaxation model, call {ci}: the model raises ({why}), the code returned', case, reply, r['x'].ravel())
+        return
+    if r['exc'] is not None:
+        ctx.corr(f'relaxation model, call {ci}: the model returns a vector, the code raised', case, reply[:200], r['exc'])
+        return
+    _, sh, xs = reply.split(':', 2)
+    m = dec_vec(xs)
+    x = r['x']
+    msh = (n,) if sh == 'v' else (n, 1)
+    if tuple(x.shape) != msh:
+        ctx.corr(f'relaxation model, call {ci}: shape', case, msh, tuple(x.shape))
+        return
+    if not np.all(np.isfinite(x)):
+        ctx.feat('xrelax:non-finite-output')          # (judged by the property part on Hermitian positive definite matrices)
+        return
+    scale = max(1.0, float(np.abs(m).max()) if m.size else 1.0)
+    if scale > 1e12:
+        ctx.near_skipped += 1                         # a diverging iteration: rounding errors are amplified as well
+        return
+    err = float(np.abs(x.ravel() - m).max()) if m.size else 0.0
+    tol = 1e-8 * scale
+    amp = r.get('amp')
+    nb = float(np.linalg.norm(np.asarray(calls[ci]['b']))) or 1.0
+    if amp is not None and (not np.isfinite(amp) or 1e-14 * amp * nb > 0.1 * tol):
+        # an unstable iteration (non-normal / indefinite matrix): rounding errors of the float run are amplified beyond the
+        # tolerance although the exact run may not excite the growing mode at all -- no exact comparison possible
+        ctx.near_skipped += 1
+        ctx.feat('xrelax:unstable-iteration-skipped')
+        return
+    ctx.rel_err(err / scale)
+    if err > tol:
+        ctx.corr(f'relaxation model, call {ci}: values (max abs difference {err:.3e} > {tol:.1e})', case, m, x.ravel())
+        return
+    ctx.feat('xrelax-agrees:' + name)
+    if _xrelax_bs(Ak.sparse()) > 1:
+        ctx.feat('xrelax-agrees-block-storage:' + name)
+    # what the recorded calls were asked for (the arguments the model cannot see)
+    opts = spec.get('opts') or {}
+    if name == 'chebyshev' and 'chebyshev_polynomial_coefficients' in rec and 'approximate_spectral_radius' in rec:
+        a = rec['chebyshev_polynomial_coefficients']['args']
+        rho = float(rec['approximate_spectral_radius']['value'])
+        want = [rho * opts.get('lower_bound', 1.0 / 30.0), rho * opts.get('upper_bound', 1.1), opts.get('degree', 3)]
+        if len(a) == 3 and not np.allclose(np.array(a, dtype=float), np.array(want, dtype=float), rtol=1e-12, atol=0):
+            ctx.corr(f'chebyshev: interval / degree handed to chebyshev_polynomial_coefficients', case, want, a)
+    # the hypotheses of the energy theorems (relax_jacobi_energy / relax_richardson_energy), evaluated in floating point
+    if res['hpd'] and not Ak.cplx and name in ('jacobi', 'block_jacobi', 'richardson') and _xrelax_bs(Ak.sparse()) == 1:
+        om = float(opts.get('omega', 1.0))
+        key = XRHO.get(name, 'rho_D_inv_A')
+        if name == 'richardson' or opts.get('withrho', True):
+            om = om / float(rec[key]['value']) if key in rec else float('nan')
+        M = Ak.M
+        d = np.diag(M) if name != 'richardson' else np.ones(n)
+        lam = float(np.linalg.eigvalsh(M / np.sqrt(np.outer(d, d))).max())
+        if np.isfinite(om) and 0 <= om and om * lam <= 2 * (1 - 1e-9):
+            ctx.feat('thm-hyp:damping-bound-holds:' + name)
+        else:
+            ctx.feat('thm-hyp:damping-bound-fails:' + name)
+    # relax_jacobi_ne_error: under omega_eff * lambda_max(A^T D^-1 A) <= 2 the 2-norm of the error does not increase
+    if name == 'jacobi_ne' and not Ak.cplx and ci in res.get('xs', {}) and res['xs'][ci][0] is not None:
+        om = float(opts.get('omega', 1.0))
+        if opts.get('withrho', True):
+            om = om / float(rec['rho_D_inv_A']['value']) ** 2 if 'rho_D_inv_A' in rec else float('nan')
+        M = Ak.M
+        d = (M * M).sum(axis=1)
+        if np.all(d > 0) and np.isfinite(om) and om >= 0:
+            lam = float(np.linalg.eigvalsh(M.T @ (M / d[:, None])).max())
+            if om * lam <= 2 * (1 - 1e-9):
+                ctx.feat('clause:jacobi-ne-2norm-error')
+                xs = res['xs'][ci][0]
+                e1, e0 = float(np.linalg.norm(xs - x.ravel())), float(np.linalg.norm(xs))
+                if e1 > e0 * (1 + 1e-9) + 1e-300:
+                    ctx.violation(f'{res["xs"][ci][2]}: jacobi_ne under its damping bound (omega_eff*lambda_max = {om * lam:.3f} <= 2): '
+                                  f'the 2-norm of the error increased from {e0:.6e} to {e1:.6e}', case)
+            else:
+                ctx.feat('thm-hyp:damping-bound-fails:jacobi_ne')
 
 
 def _judge_energy(ctx, mats, spec, calls, ci, res, reply):
@@ -1131,6 +1365,7 @@ def build_items(ctx, nmat, quick):
     items = []
     for t in range(nmat):
         mat = gen_matrix(rng)
+        mat_x = mat
         for spec in gen_specs(rng, mat, quick=quick):
             calls = gen_history(rng, mat, spec)
             name = spec['arg'] if isinstance(spec['arg'], str) else None
@@ -1150,6 +1385,15 @@ def build_items(ctx, nmat, quick):
                         calls[-2]['k'] = 1
                         calls[-1]['k'] = 0
             items.append((mats, spec, calls))
+        # extension E29: more relaxation setups on the same matrix, from a generator of their own
+        h = hashlib.sha1(mat_x.M.tobytes() + repr((ctx.seed, t, mat_x.M.shape)).encode()).digest()
+        rx = np.random.default_rng(int.from_bytes(h[:8], 'little'))
+        for spec in gen_specs_x(rx, mat_x, quick=quick):
+            calls = [c for c in gen_history(rx, mat_x, spec)]
+            fmt = mat_x.fmt if mat_x.fmt in ('csr', 'bsr', 'bsr2') else 'csr'
+            if spec['arg'] in ('block_jacobi', 'block_gauss_seidel') and mat_x.n >= 2 and mat_x.n % 2 == 0 and rx.random() < 0.6:
+                fmt = 'bsr2'                                    # the block kernels proper (2x2 blocks)
+            items.append(([Mat(mat_x.M, mat_x.cls, mat_x.explicit, fmt)], spec, calls))
     return items
 
 
@@ -1175,6 +1419,23 @@ def fixed_items():
     out.append(([Mat(np.array([[7.0, -12, -1], [-12, 27, 3], [-1, 3, 1]]), 'spd')], {'arg': 'gauss_seidel_ne'}, [{'shape': 'c', 'k': 0, 'b': np.array([-2.0, 0, 2])}]))
     out.append(([Mat(np.array([[9.0, 0, 0, -8], [0, 27, -2, 2], [0, -2, 1, -1], [-8, 2, -1, 20]]), 'spd')], {'arg': 'jacobi_ne'},
                 [{'shape': 'v', 'k': 0, 'b': np.array([1.0, -2, 3, 1])}]))
+    # extension E29: every modelled relaxation setup on the 4x4 Poisson matrix (point and 2x2 block storage) and a nonsymmetric matrix
+    N4 = np.array([[4.0, 1, 0, 0], [-1, 3, 1, 0], [0, 0, 2, -1], [1, 0, 1, 5]])
+    xcalls = [{'shape': 'v', 'k': 0, 'b': np.array([1.0, 0, 0, 1])}, {'shape': 'c', 'k': 0, 'b': np.array([0.0, 2, -1, 3])}]
+    for sp in ({'arg': 'jacobi'}, {'arg': 'jacobi', 'opts': {'omega': 1.5, 'iterations': 2}}, {'arg': 'block_jacobi'},
+               {'arg': 'block_jacobi', 'opts': {'withrho': False, 'omega': 0.5, 'iterations': 3}},
+               {'arg': 'block_gauss_seidel'}, {'arg': 'block_gauss_seidel', 'opts': {'sweep': 'backward', 'iterations': 2}},
+               {'arg': 'block_gauss_seidel', 'opts': {'sweep': 'symmetric', 'iterations': 1}},
+               {'arg': 'richardson'}, {'arg': 'richardson', 'opts': {'omega': 1.5, 'iterations': 3}},
+               {'arg': 'chebyshev'}, {'arg': 'chebyshev', 'opts': {'degree': 4, 'iterations': 2, 'lower_bound': 0.125, 'upper_bound': 1.25}},
+               {'arg': 'jacobi_ne'}, {'arg': 'jacobi_ne', 'opts': {'withrho': False, 'omega': 0.25, 'iterations': 3}},
+               {'arg': 'gauss_seidel_ne', 'opts': {'omega': 1.5, 'sweep': 'symmetric', 'iterations': 2}},
+               {'arg': 'gauss_seidel_ne', 'opts': {'sweep': 'backward'}},
+               {'arg': 'gauss_seidel_nr', 'opts': {'omega': 0.5, 'sweep': 'symmetric', 'iterations': 2}},
+               {'arg': 'gauss_seidel_nr', 'opts': {'sweep': 'backward', 'iterations': 3}}):
+        for fmt in ('csr', 'bsr2'):
+            out.append(([Mat(P, 'spd', (), fmt)], sp, [dict(c) for c in xcalls]))
+        out.append(([Mat(N4, 'nonsym', (), 'csr')], sp, [dict(c) for c in xcalls]))
     # mixed dtypes, every solver name, both shapes: complex matrix with real right-hand sides, real matrix with complex ones
     Hc = np.array([[3, 1j, 0], [-1j, 3, 1], [0, 1, 2]], dtype=complex)
     Nc = np.array([[3, 1j, 1], [0, 2 - 1j, 0], [1, 0, 4j]], dtype=complex)
